@@ -571,4 +571,16 @@ theorem calendar_roundtrip (z : Int) :
   obtain ⟨h1, h2, _, _⟩ := C16.Spec.civilFromDays_range z
   rw [daysFromCivil_eq _ _ _ h1 h2]
   exact C16.Spec.daysFromCivil_civilFromDays z
+theorem daysInMonth_eq (y m : Int) : daysInMonth y m = C16.Spec.daysInMonth y m := by
+  unfold daysInMonth C16.Spec.daysInMonth isLeap C16.Spec.isLeapYear
+  by_cases h2 : m = 2
+  · simp only [h2, if_true]
+    by_cases a : y % 4 = 0 <;> by_cases b : y % 100 = 0 <;> by_cases c : y % 400 = 0 <;> simp [a, b, c]
+  · simp only [h2, if_false]
+
+/-- the model's date of the model's day count of a calendar date is that date -/
+theorem calendar_roundtrip_date (y m d : Int) (h1 : 1 ≤ m) (h2 : m ≤ 12) (h3 : 1 ≤ d) (h4 : d ≤ daysInMonth y m) :
+    civilFromDays (daysFromCivil y m d) = (y, m, d) := by
+  rw [civilFromDays_eq, daysFromCivil_eq y m d h1 h2]
+  exact C16.Spec.civilFromDays_daysFromCivil y m d ⟨h1, h2, h3, by rw [← daysInMonth_eq]; exact h4⟩
 end Tv.C17
